@@ -129,6 +129,7 @@ int BufferedStream::copy(char* out, int max) {
 	for (std::size_t n = static_cast<std::size_t>(max); n && peek();) {
 		std::size_t b = std::strlen(buf_ + rpos_);
 		std::size_t m = std::min(n, b);
+		line_ += static_cast<unsigned>(std::count(buf_ + rpos_, buf_ + rpos_ + m, '\n'));
 		out = std::copy(buf_ + rpos_, buf_ + rpos_ + m, out);
 		n -= m;
 		os += m;
